@@ -190,7 +190,17 @@ Section WAL.
     | Some fr => (group_flush (group_write g fr), WOk)
     end.
 
-  Inductive wal_op := WWrite (p : bytes) | WWriteSync (p : bytes) | WTick | WFlush | WRotate.
+  (** Stop (FlushAndSync, close) followed by NewWAL on the same directory and Start: OnStart writes
+      [EndHeightMessage{0}] (payload [p0]) with WriteSync whenever the head file is empty — at the
+      very first start, and also after a rotation that left the head empty. *)
+  Definition wal_start (g : group) (p0 : bytes) : group * wres :=
+    let g1 := group_flush g in
+    match g_head g1 with
+    | [] => wal_write_sync g1 p0
+    | _ => (g1, WOk)
+    end.
+
+  Inductive wal_op := WWrite (p : bytes) | WWriteSync (p : bytes) | WTick | WFlush | WRotate | WStart (p0 : bytes).
 
   Definition wal_step (g : group) (o : wal_op) : group * wres :=
     match o with
@@ -199,6 +209,7 @@ Section WAL.
     | WTick => (check_head_size_limit g, WOk)
     | WFlush => (group_flush g, WOk)
     | WRotate => (group_rotate g, WOk)
+    | WStart p0 => wal_start g p0
     end.
 
   Definition wal_run (g : group) (ops : list wal_op) : group :=
